@@ -1,56 +1,268 @@
 import PysnarkModel.Lemmas.BranchRefines
 /-!
-# Block branching: a complete run (`runBlock`) against the native run (`nativeRun`)
+# Block branching: a complete run (`runBlockT`) against the native run (`nativeRunT`)
 -/
 namespace Pysnark
 
-theorem setupVars_ref : ∀ (init : List (Nat × Int)) {bv bv' : BV} {E : NEnv} {s s' : St}, RefV bv.vals E →
-    setupVars init bv s = .ok (bv', s') →
-    Same s s' ∧ RefV bv'.vals (init.foldl (fun e kv => e.set kv.1 kv.2) E)
-  | [], bv, bv', E, s, s', hr, h => by
-    unfold setupVars at h
-    obtain ⟨rfl, rfl⟩ := pure_ok' h
-    exact ⟨Same.refl _, hr⟩
-  | (x, v) :: rest, bv, bv', E, s, s', hr, h => by
-    unfold setupVars at h
-    obtain ⟨l, s1, h1, h2⟩ := bind_ok.mp h
-    obtain ⟨sm1, v1⟩ := privVal_val h1
-    have hr1 : RefV (bv.vals.set x ⟨l, bv.next⟩) (E.set x v) := by
-      have := hr.set x ⟨l, bv.next⟩
-      simpa [v1] using this
-    obtain ⟨sm2, hr2⟩ := setupVars_ref rest (bv := ⟨bv.vals.set x ⟨l, bv.next⟩, bv.next + 1⟩) hr1 h2
-    exact ⟨sm1.trans sm2, hr2⟩
+theorem tdiv_of_emod_zero {a b : Int} (h : a % b = 0) : a.tdiv b = a / b :=
+  Int.tdiv_eq_ediv_of_dvd (Int.dvd_of_emod_eq_zero h)
 
-theorem setupInputs_ref : ∀ (inputs : List Int) {n : Nat} {os : List Obj} {s s' : St},
-    setupInputs inputs n s = .ok (os, s') → Same s s' ∧ os.map (fun o => o.v.value) = inputs
-  | [], n, os, s, s', h => by
-    unfold setupInputs at h
-    obtain ⟨rfl, rfl⟩ := pure_ok' h
-    exact ⟨Same.refl _, rfl⟩
-  | v :: rest, n, os, s, s', h => by
-    unfold setupInputs at h
+theorem setupLeaf_ref {r : Nat} {a : ILeaf} {n n' : Nat} {o : SVal} {s s' : St} (hl : Live r s)
+    (h : setupLeaf a n s = .ok ((o, n'), s')) :
+    Same s s' ∧ o.bok = true ∧ ∀ p, nLeaf r a = .ok p → p.norm r = o.den r := by
+  cases a with
+  | int v =>
+    simp only [setupLeaf] at h
     obtain ⟨l, s1, h1, h⟩ := bind_ok.mp h
-    obtain ⟨os', s2, h2, h⟩ := bind_ok.mp h
-    obtain ⟨rfl, rfl⟩ := pure_ok' h
-    obtain ⟨sm1, v1⟩ := privVal_val h1
-    obtain ⟨sm2, v2⟩ := setupInputs_ref rest h2
-    exact ⟨sm1.trans sm2, by simp [v1, v2]⟩
+    obtain ⟨h2, rfl⟩ := pure_ok' h
+    simp only [Prod.mk.injEq] at h2
+    obtain ⟨rfl, _⟩ := h2
+    obtain ⟨sm, vl⟩ := privVal_val h1
+    refine ⟨sm, rfl, fun p hp => ?_⟩
+    simp only [nLeaf, Except.ok.injEq] at hp
+    subst hp
+    simp only [NLeaf.norm, SVal.den, vl]
+  | bool v =>
+    simp only [setupLeaf] at h
+    obtain ⟨l, s1, h1, h⟩ := bind_ok.mp h
+    obtain ⟨b, s2, h2, h⟩ := bind_ok.mp h
+    obtain ⟨sm1, vl⟩ := privVal_val h1
+    obtain ⟨sm2, c, rfl, hb, vc⟩ := cmpV_int_all (x := .lc l) (y := .int 1) trivial trivial h2
+    dsimp only at h
+    obtain ⟨h3, rfl⟩ := pure_ok' h
+    simp only [Prod.mk.injEq] at h3
+    obtain ⟨rfl, _⟩ := h3
+    refine ⟨sm1.trans sm2, SVal.bok_bool hb, fun p hp => ?_⟩
+    simp only [nLeaf, Except.ok.injEq] at hp
+    subst hp
+    rw [norm_nBool]
+    show _ = c.value * 2 ^ r
+    rw [vc (hl.same sm1)]
+    simp only [cmpSem, ival, vl]
+    by_cases hv : v = 1 <;> simp [hv]
+  | fxp m e =>
+    simp only [setupLeaf] at h
+    obtain ⟨w, s1, h1, h⟩ := bind_ok.mp h
+    obtain ⟨sm, x, rfl, vx, _⟩ := mkVal_privx_val h1
+    dsimp only at h
+    obtain ⟨h3, rfl⟩ := pure_ok' h
+    simp only [Prod.mk.injEq] at h3
+    obtain ⟨rfl, _⟩ := h3
+    refine ⟨sm, rfl, fun p hp => ?_⟩
+    simp only [nLeaf] at hp
+    split at hp
+    · rename_i hdiv
+      simp only [Except.ok.injEq] at hp
+      subst hp
+      show _ = x.value
+      rw [vx, hl.res]
+      simp only [NLeaf.norm, rep, scaleFlt]
+      exact (tdiv_of_emod_zero hdiv).symm
+    · cases hp
 
-/-- a completed run of a structured program against its native twin -/
-theorem runBlock_ref {s0 : St} (hg : s0.guard = none) (hi : s0.ignoreErrors = false)
-    {init : List (Nat × Int)} {inputs : List Int} {prog : BBlock} {bs : BSt} {s : St}
-    (h : runBlock init inputs prog s0 = .ok (bs, s)) :
-    bs.stack = [] ∧ Post (nativeRun init inputs prog) bs.bv.vals s := by
-  unfold runBlock at h
+mutual
+theorem setupT_ref {r : Nat} : ∀ (v : IVal) {n n' : Nat} {t : TVal} {s s' : St}, Live r s →
+    setupT v n s = .ok ((t, n'), s') →
+    Same s s' ∧ t.bok = true ∧ ∀ w, nInit r v = .ok w → denN r w = denT r t
+  | .leaf a, n, n', t, s, s', hl, h => by
+    unfold setupT at h
+    obtain ⟨⟨o, n1⟩, s1, h1, h⟩ := bind_ok.mp h
+    obtain ⟨h2, rfl⟩ := pure_ok' h
+    simp only [Prod.mk.injEq] at h2
+    obtain ⟨rfl, _⟩ := h2
+    obtain ⟨sm, hb, hv⟩ := setupLeaf_ref hl h1
+    refine ⟨sm, by rw [TVal.bok_leaf]; exact hb, fun w hw => ?_⟩
+    simp only [nInit] at hw
+    cases hp : nLeaf r a with
+    | error x => rw [hp] at hw; cases hw
+    | ok p =>
+      rw [hp] at hw
+      simp only [ok_bind] at hw
+      cases hw
+      rw [denN_leaf, denT_leaf, hv p hp]
+  | .node vs, n, n', t, s, s', hl, h => by
+    unfold setupT at h
+    obtain ⟨⟨ts, n1⟩, s1, h1, h⟩ := bind_ok.mp h
+    obtain ⟨h2, rfl⟩ := pure_ok' h
+    simp only [Prod.mk.injEq] at h2
+    obtain ⟨rfl, _⟩ := h2
+    obtain ⟨sm, hb, hv⟩ := setupTL_ref vs hl h1
+    refine ⟨sm, by rw [TVal.bok_node]; exact hb, fun w hw => ?_⟩
+    simp only [nInit] at hw
+    cases hp : nInitL r vs with
+    | error x => rw [hp] at hw; cases hw
+    | ok ws =>
+      rw [hp] at hw
+      simp only [ok_bind] at hw
+      cases hw
+      rw [denN_node, denT_node, hv ws hp]
+theorem setupTL_ref {r : Nat} : ∀ (vs : List IVal) {n n' : Nat} {ts : List TVal} {s s' : St}, Live r s →
+    setupTL vs n s = .ok ((ts, n'), s') →
+    Same s s' ∧ ts.all TVal.bok = true ∧ ∀ ws, nInitL r vs = .ok ws → ws.map (denN r) = ts.map (denT r)
+  | [], n, n', ts, s, s', _, h => by
+    unfold setupTL at h
+    obtain ⟨h2, rfl⟩ := pure_ok' h
+    simp only [Prod.mk.injEq] at h2
+    obtain ⟨rfl, _⟩ := h2
+    refine ⟨Same.refl _, rfl, fun ws hw => ?_⟩
+    simp only [nInitL, Except.ok.injEq] at hw
+    subst hw; rfl
+  | v :: vs, n, n', ts, s, s', hl, h => by
+    unfold setupTL at h
+    obtain ⟨⟨t, n1⟩, s1, h1, h⟩ := bind_ok.mp h
+    obtain ⟨⟨ts', n2⟩, s2, h2, h⟩ := bind_ok.mp h
+    obtain ⟨h3, rfl⟩ := pure_ok' h
+    simp only [Prod.mk.injEq] at h3
+    obtain ⟨rfl, _⟩ := h3
+    obtain ⟨sm1, hb1, hv1⟩ := setupT_ref v hl h1
+    obtain ⟨sm2, hb2, hv2⟩ := setupTL_ref vs (hl.same sm1) h2
+    refine ⟨sm1.trans sm2, by simp only [List.all_cons, hb1, hb2, Bool.and_self], fun ws hw => ?_⟩
+    simp only [nInitL] at hw
+    cases hp : nInit r v with
+    | error x => rw [hp] at hw; cases hw
+    | ok w =>
+      rw [hp] at hw
+      simp only [ok_bind] at hw
+      cases hq : nInitL r vs with
+      | error x => rw [hq] at hw; cases hw
+      | ok ws' =>
+        rw [hq] at hw
+        simp only [ok_bind] at hw
+        cases hw
+        simp only [List.map_cons, hv1 w hp, hv2 ws' hq]
+end
+
+theorem setupVars_same {r : Nat} : ∀ (init : List (Nat × IVal)) {bv bv' : BV} {s s' : St}, Live r s →
+    setupVars init bv s = .ok (bv', s') → Same s s'
+  | [], bv, bv', s, s', _, h => by
+    unfold setupVars at h
+    obtain ⟨rfl, rfl⟩ := pure_ok' h
+    exact Same.refl _
+  | (x, v) :: rest, bv, bv', s, s', hl, h => by
+    unfold setupVars at h
+    obtain ⟨⟨t, n⟩, s1, h1, h2⟩ := bind_ok.mp h
+    obtain ⟨sm1, _, _⟩ := setupT_ref v hl h1
+    exact sm1.trans (setupVars_same rest (hl.same sm1) h2)
+
+theorem setupVars_ref {r : Nat} : ∀ (init : List (Nat × IVal)) {bv bv' : BV} {E : NEnv} {s s' : St}, Live r s →
+    RefV r bv.vals E → setupVars init bv s = .ok (bv', s') →
+    ∀ E', nInitVars r init E = .ok E' → RefV r bv'.vals E'
+  | [], bv, bv', E, s, s', _, hr, h => by
+    unfold setupVars at h
+    obtain ⟨rfl, rfl⟩ := pure_ok' h
+    intro E' hE
+    simp only [nInitVars, Except.ok.injEq] at hE
+    subst hE; exact hr
+  | (x, v) :: rest, bv, bv', E, s, s', hl, hr, h => by
+    unfold setupVars at h
+    obtain ⟨⟨t, n⟩, s1, h1, h2⟩ := bind_ok.mp h
+    obtain ⟨sm1, hb, hv⟩ := setupT_ref v hl h1
+    intro E' hE
+    simp only [nInitVars] at hE
+    cases hp : nInit r v with
+    | error e => rw [hp] at hE; cases hE
+    | ok w =>
+      rw [hp] at hE
+      simp only [ok_bind] at hE
+      exact setupVars_ref rest (hl.same sm1) (hr.set x (hv w hp) hb) h2 E' hE
+
+theorem setupInputs_ref {r : Nat} : ∀ (ls : List ILeaf) {n n' : Nat} {os : List SVal} {s s' : St}, Live r s →
+    setupInputs ls n s = .ok ((os, n'), s') →
+    Same s s' ∧ (∀ o ∈ os, o.bok = true) ∧ ∀ ps, nLeaves r ls = .ok ps → os.map (SVal.den r) = ps.map (NLeaf.norm r)
+  | [], n, n', os, s, s', _, h => by
+    unfold setupInputs at h
+    obtain ⟨h2, rfl⟩ := pure_ok' h
+    simp only [Prod.mk.injEq] at h2
+    obtain ⟨rfl, _⟩ := h2
+    refine ⟨Same.refl _, (fun o ho => by cases ho), fun ps hp => ?_⟩
+    simp only [nLeaves, Except.ok.injEq] at hp
+    subst hp; rfl
+  | a :: rest, n, n', os, s, s', hl, h => by
+    unfold setupInputs at h
+    obtain ⟨⟨o, n1⟩, s1, h1, h⟩ := bind_ok.mp h
+    obtain ⟨⟨os', n2⟩, s2, h2, h⟩ := bind_ok.mp h
+    obtain ⟨h3, rfl⟩ := pure_ok' h
+    simp only [Prod.mk.injEq] at h3
+    obtain ⟨rfl, _⟩ := h3
+    obtain ⟨sm1, hb1, hv1⟩ := setupLeaf_ref hl h1
+    obtain ⟨sm2, hb2, hv2⟩ := setupInputs_ref rest (hl.same sm1) h2
+    refine ⟨sm1.trans sm2, ?_, fun ps hp => ?_⟩
+    · intro o' ho'
+      rcases List.mem_cons.mp ho' with rfl | ho'
+      · exact hb1
+      · exact hb2 o' ho'
+    · simp only [nLeaves] at hp
+      cases hq : nLeaf r a with
+      | error x => rw [hq] at hp; cases hp
+      | ok p =>
+        rw [hq] at hp
+        simp only [ok_bind] at hp
+        cases hq' : nLeaves r rest with
+        | error x => rw [hq'] at hp; cases hp
+        | ok ps' =>
+          rw [hq'] at hp
+          simp only [ok_bind] at hp
+          cases hp
+          simp only [List.map_cons, hv1 p hq, hv2 ps' hq']
+
+theorem RefV.nil (r : Nat) : RefV r [] [] := ⟨fun _ => rfl, Vals.bok_nil⟩
+
+/-- a completed run of a structured program against its native twin: if the initial values are
+representable, the native program runs from them to the same final values -/
+theorem runBlockT_ref {s0 : St} (hg : s0.guard = none) (hi : s0.ignoreErrors = false)
+    {init : List (Nat × IVal)} {inputs : List Int} {finputs : List (Int × Nat)} {prog : BBlock} {bs : BSt} {s : St}
+    (h : runBlockT init inputs finputs prog s0 = .ok (bs, s)) :
+    bs.stack = [] ∧ ∀ E0 nc, nativeInit s0.resolution init inputs finputs = .ok (E0, nc) →
+      Post s0.resolution (nBlock nc prog E0) bs.bv.vals s := by
+  unfold runBlockT at h
   obtain ⟨bv, s1, h1, h⟩ := bind_ok.mp h
-  obtain ⟨inp, s2, h2, h⟩ := bind_ok.mp h
-  have hl0 : Live s0 := ⟨by unfold St.isGuard; rw [hg], hi⟩
-  obtain ⟨sm1, hr1⟩ := setupVars_ref init (bv := {}) (E := []) (fun x => rfl) h1
-  obtain ⟨sm2, hv2⟩ := setupInputs_ref inputs h2
-  have hri : RefI { inputs := inp } { inputs := inputs } := by
-    refine ⟨rfl, fun i => ?_⟩
-    rw [← hv2, List.getElem?_map]
-  obtain ⟨hst, _⟩ := execBlock_struct prog _ _ _ _ _ h
-  exact ⟨hst, execBlock_ref prog _ _ _ _ _ _ _ hri ((hl0.same sm1).same sm2) hr1 h⟩
+  obtain ⟨⟨inp, n1⟩, s2, h2, h⟩ := bind_ok.mp h
+  obtain ⟨⟨finp, n2⟩, s3, h3, h⟩ := bind_ok.mp h
+  have hl0 : Live s0.resolution s0 := ⟨by unfold St.isGuard; rw [hg], hi, rfl⟩
+  have sm1 := setupVars_same init (bv := {}) hl0 h1
+  obtain ⟨sm2, hb2, hv2⟩ := setupInputs_ref _ (hl0.same sm1) h2
+  obtain ⟨sm3, hb3, hv3⟩ := setupInputs_ref _ ((hl0.same sm1).same sm2) h3
+  obtain ⟨⟨hst, _⟩, _⟩ := execBlock_struct prog _ _ _ _ _ h
+  refine ⟨hst, fun E0 nc hN => ?_⟩
+  unfold nativeInit at hN
+  cases hE : nInitVars s0.resolution init [] with
+  | error x => rw [hE] at hN; cases hN
+  | ok E =>
+    rw [hE] at hN
+    simp only [ok_bind] at hN
+    cases hI : nLeaves s0.resolution (inputs.map ILeaf.int) with
+    | error x => rw [hI] at hN; cases hN
+    | ok ps =>
+      rw [hI] at hN
+      simp only [ok_bind] at hN
+      cases hF : nLeaves s0.resolution (finputs.map (fun me => ILeaf.fxp me.1 me.2)) with
+      | error x => rw [hF] at hN; cases hN
+      | ok fs =>
+        rw [hF] at hN
+        simp only [ok_bind] at hN
+        have hr1 := setupVars_ref init (bv := {}) hl0 (RefV.nil _) h1 E hE
+        cases hN
+        have hri : RefI s0.resolution { inputs := inp, finputs := finp } { res := s0.resolution, inputs := ps, finputs := fs } := by
+          refine ⟨rfl, rfl, fun i => ?_, fun i => ?_, hb2, hb3⟩
+          · have := congrArg (fun l => l[i]?) (hv2 ps hI)
+            simpa only [List.getElem?_map] using this
+          · have := congrArg (fun l => l[i]?) (hv3 fs hF)
+            simpa only [List.getElem?_map] using this
+        exact execBlock_ref prog _ _ _ _ _ _ _ hri (((hl0.same sm1).same sm2).same sm3) hr1 h
+
+theorem nInitVars_int (r : Nat) : ∀ (init : List (Nat × Int)) (E : NEnv),
+    nInitVars r (init.map (fun kv => (kv.1, PTree.leaf (ILeaf.int kv.2)))) E
+      = .ok (init.foldl (fun e kv => e.set kv.1 (.leaf (.int kv.2))) E)
+  | [], E => rfl
+  | (x, v) :: rest, E => by
+    simp only [List.map_cons, nInitVars, nInit, nLeaf, ok_bind, List.foldl_cons]
+    exact nInitVars_int r rest _
+
+theorem nLeaves_int (r : Nat) : ∀ (inputs : List Int), nLeaves r (inputs.map ILeaf.int) = .ok (inputs.map NLeaf.int)
+  | [] => rfl
+  | v :: rest => by
+    simp only [List.map_cons, nLeaves, nLeaf, ok_bind, nLeaves_int r rest]
+    rfl
+
 
 end Pysnark
